@@ -428,6 +428,8 @@ static int cv_cas (nsync_atomic_uint32_ *p, uint32_t o, uint32_t n, int order) {
 	VP_ASSERT ((o & CV_SPINLOCK) == 0 && (n & CV_SPINLOCK) != 0 && !vp_cvg.spin, "C04: the cv word is changed by compare-and-swap only to take its free spinlock");
 	VP_ASSERT (((o ^ n) & ~(CV_SPINLOCK | CV_NON_EMPTY)) == 0 && ((o & CV_NON_EMPTY) == 0 || (n & CV_NON_EMPTY) != 0), "C04: taking the cv spinlock may set CV_NON_EMPTY and changes nothing else");
 	VP_ASSERT (order == VP_ACQ || order == VP_ACQREL, "C03: taking the cv spinlock is an acquire");
+	/* J (cv): whenever the spinlock is free, CV_NON_EMPTY clear implies an empty queue - re-established by every releasing store (asserted in cv_store) */
+	VP_ASSUME ((o & CV_NON_EMPTY) != 0 || ((nsync_cv *) ((char *) p - offsetof (nsync_cv, word)))->waiters == NULL);
 	vp_cvg.spin = 1;
 	*p = n;
 	return 1;
@@ -438,6 +440,8 @@ static void cv_store (nsync_atomic_uint32_ *p, uint32_t v, int order) {
 	VP_ASSERT (vp_cvg.spin, "C04: the cv word is stored only by the owner of its spinlock");
 	VP_ASSERT ((v & CV_SPINLOCK) == 0 && (v & ~(CV_SPINLOCK | CV_NON_EMPTY)) == 0, "C04/C16: the owner's store releases the cv spinlock");
 	VP_ASSERT (!vp_g.observer || (v & CV_NON_EMPTY) == (*p & CV_NON_EMPTY), "C16: an observer changes nothing but the cv spinlock bit");
+	VP_ASSERT ((v & CV_NON_EMPTY) != 0 || ((nsync_cv *) ((char *) p - offsetof (nsync_cv, word)))->waiters == NULL,
+		   "C04: CV_NON_EMPTY is cleared only when the cv queue is empty (later wake-ups must not take the empty fast path while waiters remain)");
 	VP_ASSERT (order == VP_REL || order == VP_ACQREL, "C03: releasing the cv spinlock is a release");
 	if (vp_cvg.in_wait && (v & CV_NON_EMPTY) != 0 && !vp_cvg.self_dequeued) vp_cvg.enq_done = 1;
 	vp_cvg.spin = 0;
